@@ -1185,9 +1185,60 @@ impl Property for C15 {
             Ev::DropOp { sel: 65535 },
             Ev::Settle,
         ];
+        // a cancellation while MANY other operations are outstanding (31, 32, 33, 64, 130, 300): the
+        // abandoned operation is the oldest / in the middle / the newest; cancelled before its first
+        // acknowledgement or (QoS 2) between the phases; Receive Maximum 1 or unlimited
+        let mut crowded = vec![];
+        let mut k = 0;
+        for n in [31usize, 32, 33, 64, 130, 300] {
+            for kind in [OpKind::Pub2, OpKind::Pub1, OpKind::Sub(0)] {
+                for between in [false, true] {
+                    for pos in [0usize, n / 2, n] {
+                        for r in [Some(1u16), None] {
+                            k += 1;
+                            if k % workers != worker || (between && kind != OpKind::Pub2) {
+                                continue;
+                            }
+                            let mut events = vec![];
+                            let filler = |i: usize| match i % 3 {
+                                0 => OpKind::Ping,
+                                1 => OpKind::Sub(0),
+                                _ => OpKind::Unsub(1),
+                            };
+                            for i in 0..pos {
+                                events.push(Ev::Start { h: 0, kind: filler(i), settle: false, solo: false });
+                            }
+                            events.push(Ev::Settle);
+                            events.push(Ev::Start { h: 0, kind, settle: false, solo: false });
+                            events.push(Ev::Settle); // written
+                            if between {
+                                // PUBREC arrives and is processed by the context only
+                                events.push(Ev::In(Inbound::Ack { sel: 65535, deco: ok }));
+                                events.push(Ev::PollCtx);
+                            }
+                            events.push(Ev::DropOp { sel: 65535 });
+                            for i in pos..n {
+                                events.push(Ev::Start { h: 0, kind: filler(i), settle: false, solo: false });
+                            }
+                            events.push(Ev::Settle);
+                            // every acknowledgement, oldest outstanding first, until nothing is ackable
+                            for _ in 0..(n + 4) {
+                                events.push(Ev::In(Inbound::Ack { sel: 0, deco: ok }));
+                                events.push(Ev::Settle);
+                            }
+                            // the slot must be free again
+                            events.push(Ev::Start { h: 0, kind: OpKind::Pub1, settle: true, solo: false });
+                            events.push(Ev::Settle);
+                            crowded.push(Scenario { receive_max: r, max_packet_size: None, id_offset: 0, prologue: 0, events });
+                        }
+                    }
+                }
+            }
+        }
         Box::new(
             sequences(alphabet, tier.pick(5, 7), worker, workers)
-                .map(|events| Scenario { receive_max: Some(1), max_packet_size: None, id_offset: 0, prologue: 0, events }),
+                .map(|events| Scenario { receive_max: Some(1), max_packet_size: None, id_offset: 0, prologue: 0, events })
+                .chain(crowded),
         )
     }
 
